@@ -451,6 +451,9 @@ class Engine:
         op = e.op
         if op in ('&&', '||'):
             l = self.ev(e.l, st)
+            ls_ = z3.simplify(l)
+            if op == '&&' and z3.is_false(ls_): return z3.BoolVal(False)      # short circuit: the right operand is not evaluated
+            if op == '||' and z3.is_true(ls_): return z3.BoolVal(True)
             if self.has_call(e.r):
                 s2 = st.clone(); s2.assume(l if op == '&&' else z3.Not(l))
                 r = self.ev(e.r, s2)
@@ -734,6 +737,13 @@ class Engine:
         if fn == 'std::accumulate':
             sq, lo, hi = self.iter_range(e.args[0], e.args[1], st)
             init = self.ev(e.args[2], st)
+            lo_, hi_ = z3.simplify(lo), z3.simplify(hi)
+            if z3.is_int_value(lo_) and z3.is_int_value(hi_) and lo_.as_long() == 0 and 0 <= hi_.as_long() <= 16:
+                # a short concrete range: the left-to-right sum itself
+                self.oblige(st, hi <= sq.n, 'bounds', 'std::accumulate: the range lies within the sequence')
+                acc_ = self.to_real(init) if sq.et == 'double' else init
+                for k_ in range(hi_.as_long()): acc_ = acc_ + z3.Select(sq.arr, k_)
+                return acc_
             if 'seqsum' not in self.db.specfns: raise E2Error('std::accumulate needs the spec function seqsum')
             self.oblige(st, z3.And(lo == 0, hi >= 0, hi <= sq.n), 'model', 'std::accumulate is modelled for ranges [begin, begin+n)')
             self.notes.append('std::accumulate modelled as the left-to-right sum (C++ standard)')
@@ -879,6 +889,10 @@ class Engine:
             raise E2Error('clause field access on non-record (%s)' % SP.show(x))
         if k == 'index':
             b = self.sv(x.base, st, bound); i = self.sv(x.idx, st, bound)
+            if isinstance(b, PySeq):
+                i_ = z3.simplify(i)
+                if not (z3.is_int_value(i_) and 0 <= i_.as_long() < len(b.items)): raise E2Error('clause index %s into a concrete grid must be a constant in range' % SP.show(x))
+                return b.items[i_.as_long()]
             if not isinstance(b, Seq): raise E2Error('clause index on non-sequence (%s)' % SP.show(x))
             return b.at(i)
         if k == 'len':
@@ -2225,8 +2239,14 @@ class Verifier(Engine):
                     # members of class type are default-constructed before the body runs
                     sv_ = st.env['self']
                     st.env['self'] = Rec(sv_.name, {fn: (self.default_val(ft, st) if IR.is_seq(ft) else sv_.f[fn]) for fn, ft in self.records.fields(f.self_rec)})
+            grid = (fs.options.get('grid') or '').split()       # option grid PARAM R C : a concrete R x C grid of symbolic records (bounded view)
             for pn, pt, br in f.params:
-                st.env[pn] = self.fresh_val(pt, pn, st)
+                if grid and grid[0] == pn and pt.startswith('seq<seq<rec:'):
+                    rt = IR.elem(IR.elem(pt)); R_, C_ = int(grid[1]), int(grid[2])
+                    st.env[pn] = PySeq(IR.elem(pt), [PySeq(rt, [self.fresh_val(rt, '%s.%d.%d' % (pn, r_, c_), st) for c_ in range(C_)]) for r_ in range(R_)])
+                    self.bounded.append('%s%s is a concrete %d x %d grid of symbolic records (bounded)' % (self.prefix, pn, R_, C_))
+                else:
+                    st.env[pn] = self.fresh_val(pt, pn, st)
                 self.vartypes[pn] = pt
             for ct, cn in fs.captures:
                 tt = {'real': 'double', 'seq': 'seq<double>', 'string': 'str'}.get(ct, ct)
